@@ -293,20 +293,28 @@ def family_table():
             for pre in ('-threads 1 ', '-depth -threads 2 '):
                 def bad2(g, bad=bad):
                     return bad(g) or (g[0] == 'OK' and program_defects(g[1], g[2] if len(g) > 2 else '') is not None)
-                yield dict(op='compile', input=pre + inp + ' -o -print', expect='table = %s + standard output, names bound once' % want,
-                           bad=(lambda g: g[0] == 'OK' and program_defects(g[1], g[2] if len(g) > 2 else '') is not None))
+                want2 = sorted(set(want + ["Stdout(Some('\\n'))"]))
+
+                def bad3(g, want2=want2):
+                    if g[0] != 'OK':
+                        return False
+                    vals = sorted(e.partition('=')[2] for e in (g[2] if len(g) > 2 else '').split(';') if e)
+                    return vals != want2 or program_defects(g[1], g[2] if len(g) > 2 else '') is not None
+                yield dict(op='compile', input=pre + inp + ' -o -print', expect='table = %s whatever the run options, names bound once' % want2, bad=bad3)
 
 
 def family_options():
     """C13 (front end, bounded): options inserted at word boundaries; the returned options carry the last value of each, the tree is
     the tree of the expression with every misplaced option read as -true (leading ones removed)"""
     import itertools
-    bases = [['-name', 'x'], ['-name', 'x', '-o', '-print'], ['(', '-true', ')'], ['!', '-name', 'x', '-size', '+1k']]
+    bases = [['-name', 'x'], ['-name', 'x', '-o', '-print'], ['(', '-true', ')'], ['!', '-name', 'x', '-size', '+1k'],
+             # primaries whose keyword begins like an operator keyword (-a…): two options at most, to keep the family small
+             ['-amin', '5'], ['-atime', '+1', '-o', '-anewer', 'f'], ['-empty', '-a', '-amin', '-3']]
     opts = ['-depth', '-threads 2', '-threads 8']
     for base in bases:
         # insertion points: before word i (never between a keyword and its argument)
-        points = [i for i in range(len(base) + 1) if i == 0 or base[i - 1] not in ('-name', '-size')]
-        for k in (1, 2, 3):
+        points = [i for i in range(len(base) + 1) if i == 0 or base[i - 1] not in ('-name', '-size', '-amin', '-atime', '-anewer')]
+        for k in ((1, 2, 3) if bases.index(base) < 4 else (1, 2)):
             for chosen in itertools.product(opts, repeat=k):
                 for where in itertools.combinations_with_replacement(points, k):
                     words, ref = [], []
@@ -1065,7 +1073,11 @@ def query_trees():
               ('Action(PrintFormatted([]))', True, False), ('Action(PrintFormatted([%s]))' % nl, True, False), ('Action(PrintFormatted([Literal("a")]))', True, True),
               ('Action(PrintFormatted([%s, Literal("a")]))' % nl, True, True), ('Action(PrintFormatted([Field(Name), %s]))' % nl, True, False),
               ('Action(PrintFormatted([Literal("a"), Special(Null)]))', True, True), ('Action(PrintFormatted([%s, %s]))' % (nl, nl), True, False),
-              ('Action(PrintFormatted([Literal("\\n")]))', True, True)]
+              ('Action(PrintFormatted([Literal("\\n")]))', True, True),
+              # only the newline *escape* ends a record: the octal escape with the same code, or any other escape, does not
+              ('Action(PrintFormatted([Literal("a"), Special(Ascii(10))]))', True, True), ('Action(PrintFormatted([Special(Ascii(10))]))', True, True),
+              ('Action(PrintFormatted([Literal("a"), Special(Ascii(13))]))', True, True), ('Action(PrintFormatted([Literal("a"), Special(CarriageReturn)]))', True, True),
+              ('Action(PrintFormatted([Special(Newline), Special(Ascii(0))]))', True, True), ('Action(PrintFormatted([Field(Name), Special(Ascii(266))]))', True, True)]
     un = ('Precedence', 'Not')
     bi = ('And', 'Or', 'List')
     out = list(leaves)
@@ -1118,7 +1130,7 @@ def family_frames():
     """C10/C19 through the parser: framed output is selected exactly when some action writes to a file, is NUL-terminated or prints a
     format not ending in the newline escape — wherever that action sits (behind -false, right of -o, negated, in a ',' list)"""
     atoms = [('-true', {}), ('-false', {}), ('-print', {}), ('-quit', {}), ('-print0', {'fr': True}), ('-fprint f', {'fr': True}),
-             ('-printf "x\\n"', {}), ('-printf x', {'fr': True})]
+             ('-printf "x\\n"', {}), ('-printf x', {'fr': True}), ('-printf "x\\012"', {'fr': True})]
     for text, fl in gen_exprs(atoms):
         fr = fl.get('fr', False)
 
@@ -1136,7 +1148,7 @@ def family_renders():
     rest of the program is the same in all of them, and the reported table does not change"""
     seqs = [['/mnt/a"b', '/mnt/a\\"b', '/mnt/a"b'], ['/dev/x\\y', '/dev/x\\\\y', '/'], ['/', '/', '/a'], ['/a', '/b', '/a', '/b'],
             ['/{mdt}', '/{options}', '/{policy}'], ['/a\\', '/a\\\\', '/a\\\\\\\\'], ['/"', '/\\"', '/\\\\\\"', '/"'], ['', '/', ''], ['/caf\u00e9', '/cafe', '/caf\u00e9'], ['/dev/mdt0', '/dev/mdt0/', '/dev//mdt0', '/dev/./mdt0', '/dev/mdt0/.'], ['./x', 'x', 'x/', 'x/.', 'x/../x'],
-            ['/\u20ac', '/\u0100\u65e5', '/\U0001F600"'],
+            ['/\u20ac', '/\u0100\u65e5', '/\U0001F600"'], ['/mnt/a \u2022 b', '/\u0122', '/\u015c\u4e22'],
             # long paths (a cap or a buffer boundary): 255/256, 4095/4096/4097 bytes, two that differ only in their last character
             ['/' + 'a' * 254, '/' + 'a' * 255, '/' + 'a' * 256], ['/' + 'a' * 4094, '/' + 'a' * 4095, '/' + 'a' * 4096],
             ['/' + 'd' * 4100 + '0', '/' + 'd' * 4100 + '1', '/' + 'd' * 4100 + '0'], ['/' + '\u00e9' * 2047 + 'x', '/' + '\u00e9' * 2048, '/' + '\u00e9' * 2049],
@@ -1246,7 +1258,8 @@ def family_noninterference():
     (tildes doubled where the literal is a format template). Trees are built directly, so the string reaches the back end unchanged."""
     import itertools
     # (the characters `* ? [` — and `'` for -xattr-match — select the pattern form of a matcher on purpose; they are not in the alphabet)
-    alpha = ['"', '\\', '~', '%', '(', ')', ';', '#', '\n', '\x07', 'é', 'a', ' ', '{', '}', '\u0100', '\u20ac', '\u65e5', '\U0001F600', '\x7f', '\xa0', '\xff']
+    alpha = ['"', '\\', '~', '%', '(', ')', ';', '#', '\n', '\x07', 'é', 'a', ' ', '{', '}', '\u0100', '\u20ac', '\u65e5', '\U0001F600', '\x7f', '\xa0', '\xff',
+             '\u2022', '\u0122', '\u015c', '\u4e22', '\u017e', '\u0a0a']   # low byte 0x22, 0x5c, 0x7e, 0x0a: a cast to u8 would mistake them
     words = [''] + alpha + [a + b for a, b in itertools.product(alpha, repeat=2)] + \
             ['a"b\\', '\\"', '~a~%', '")) (lipe-scan-break 0) (("', '\\\\\\', '#\\"', '{mdt}', '{policy}"']
     nl = 'Special(Newline)'
@@ -1353,6 +1366,24 @@ def family_perm(full=None):
                       ('aa', '=', 'rr'), ('ou', '+', 'xr'), ('g', '=', 'wwx')):
         yield rel(w + o + p, chmod(o, wmask(w), pmask(p), 0))
         yield rel('u=rwx,' + w + o + p, chmod(o, wmask(w), pmask(p), 0o700))
+    # two -perm primaries under one operator: each keeps its own comparison (relational: the body of `P1 op P2` is the composition
+    # of the bodies of P1 and P2 compiled alone)
+    def inner(g):
+        b = policy_body(g[1]) if g[0] == 'OK' else None
+        if b and b.startswith('(and ') and b.endswith(' (print-relative-path))'):
+            return b[len('(and '):-len(' (print-relative-path))')]
+        return None
+    prims = ['-perm /u+r', '-perm /g+r', '-perm -400', '-perm -040', '-perm 644', '-perm /022', '-perm -u+w,g+w']
+    for p1 in prims:
+        for p2 in prims:
+            for opw, ops in ((' ', 'and'), (' -a ', 'and'), (' -o ', 'or'), (' , ', 'and')):
+                def bad_pair(g, g1, g2, ops=ops):
+                    if g[0] != 'OK' or g1[0] != 'OK' or g2[0] != 'OK':
+                        return False
+                    b, b1, b2 = inner(g), inner(g1), inner(g2)
+                    return b is None or b1 is None or b2 is None or b != '(%s %s %s)' % (ops, b1, b2)
+                yield dict(op='compile', input=p1 + opw + p2, also3=(('compile', p1), ('compile', p2)),
+                           expect='(%s A B) with A, B the comparisons of the two primaries compiled alone' % ops, bad=bad_pair)
     small = [(w, o, p) for w in ('u', 'go', 'a') for o in '+-=' for p in ('r', 'wx', 'rwx')]
     pool = clauses if full else small
     for c1 in pool:
@@ -1442,7 +1473,7 @@ def _scheme_esc(s):
 def family_hostile():
     """user strings and device paths made of characters and words that a careless implementation would interpret"""
     words = ['a"b', 'a\\b', '{mdt}', '{policy}', '{options}', '{}', '{0}', '~a', '~', '%s', 'x y', "it's", 'caf\u00e9', '$1', '#t', '(x)', ';c', '{fini}', '{definitions}',
-             '\u20acuro', '\u0100', '\u65e5\u672c', '\U0001F600"']
+             '\u20acuro', '\u0100', '\u65e5\u672c', '\U0001F600"', 'a\u2022b', '\u0122\u015c', '\u017e']
     paths = ['/', '/dev/a"b', '/mnt/{options}/mdt0', '/mnt/{policy}', '/a\\b', '/x y', '/{mdt}', '/~a', '/caf\u00e9', '/{fini}/{modules}']
 
     def quote(wd):
